@@ -173,12 +173,15 @@ CLAIMS.update({
     ),
     "C08": (
         "3/C08",
-        "abstract evaluation of the comparator (entrycmp/sgn/cmp inlined) on representatives of every order type",
-        "Ordering clause only: the comparator touches its arguments only through comparisons, so evaluating its body on "
-        "representatives of all 25 x 3 order types of (num1, num2, 0) x (title1 ? title2) is exhaustive; the results are checked "
-        "against the documented bucket order (numbered ascending, unnumbered by title, negative last) and antisymmetry, and the "
-        "final sort is shown to use this comparator after the merge. Link-file parsing, merge, .cap, Host=+ and abstracts have no "
-        "structural proxy and are not decided.",
+        "abstract evaluation of the comparator on representatives of every order type; path enumeration of the merge loop per "
+        "block type; structural rules for field override, .cap and Host=+/Port=+",
+        "Ordering: the comparator touches its arguments only through comparisons, so evaluating its body on representatives of "
+        "all 25 x 3 order types of (num1, num2, 0) x (title1 ? title2) is exhaustive; results are checked against the documented "
+        "bucket order and antisymmetry, and the final sort uses this comparator after the merge. Merge: per path of "
+        "MergeLinkFiles's loop and block type (X, -, other) a block is appended once, merged into the walked entry, or hides it "
+        "(idempotently); the selector index is not shrunk and nothing is dropped by selector text; mergeentries overrides only set "
+        "fields; .cap Type=X/- hides, anything else overrides; Host=+/Port=+ leave the field unset. The text of link-file lines "
+        "(Path= forms, abstract continuation) is not decided.",
         "Trusted: the walker's constant folding of comparisons and integer arithmetic.",
     ),
     "C14": (
